@@ -17,6 +17,8 @@ THEOREMS = {
         "Dawgs.C05.Props.sorted_order_free",
         "Dawgs.C05.Props.assert_kinds_idempotent",
         "Dawgs.C05.Props.unchecked_put_registers_twice",
+        "Dawgs.C05.Props.assert_kinds_repeatable",
+        "Dawgs.C05.Props.assert_kinds_old_order_depends_on_state",
     ],
     "Dawgs.Props.C05Facts": [
         "Dawgs.C05.Facts.table_nonempty",
@@ -33,6 +35,7 @@ THEOREMS = {
         "Dawgs.C05.Facts.unguarded_partial_sites_known",
         "Dawgs.C05.Facts.kind_mapper_locked",
         "Dawgs.C05.Facts.kind_mapper_check_then_act",
+        "Dawgs.C05.Facts.assert_kinds_order",
         "Dawgs.C05.Facts.kind_mapper_single_writer",
     ],
     # the first-match loop of PruneDefinitions over the alias map is justified by C06's invariant
@@ -89,6 +92,8 @@ def finding_key(suite, ops, line, msg):
         return "C05:InferExpressionType:nil-parameter-panic"
     if cls == "params-mutated:nil-slice-to-empty":
         return "C05:MapStringAnyToJSONB:mutates-caller-parameter-value"
+    if cls == "kindmapper-id-order":
+        return "C05:InMemoryKindMapper.AssertKinds:id-order-depends-on-state"
     if cls == "kindmapper-contract":
         return "C05:InMemoryKindMapper.AssertKinds:kind-registered-twice"
     if cls == "kindmapper-race":
@@ -141,7 +146,8 @@ SPEC = {
             "reflection mutants of each (1 / 6 per query: nil-ed optional, dropped / duplicated / swapped list item, flipped flag) + 27 queries assembled with the "
             "builders of /repo/query (supported and unsupported shapes) + 32 hand-assembled cypher model values with nil optionals + the "
             "kind-mapper race probe + 24 (200) kind-mapper contract cases (16 goroutines translate the same CREATE naming FRESH kinds against one mapper: outputs byte-equal, "
-            "afterwards one id per kind, one kind per id, ids dense; every third case is the single-threaded repeated label (n:K:K)) + 10 fixed and 40 (600) generated "
+            "afterwards one id per kind, one kind per id, ids dense; label lists mixing already registered and fresh kinds in every order, first call vs "
+            "sequential repeat vs the 16 concurrent calls; the single-threaded repeated label (n:K:K)) + 10 fixed and 40 (600) generated "
             "multi-path shapes (2-3 path variables, each referenced at least twice through nodes()/relationships()/size() in RETURN or only in the tail WHERE). + 16 totality shapes + 12 fixed and 40 (600) generated property maps whose keys differ only in case (ASCII and Unicode case pairs; node / relationship / "
             "CREATE / SET += positions; values as parameters so that the walk order shows in the parameter numbering) + 16 parameter-shape cases including library values "
             "(*graph.Properties fresh with nil Map, with nil tracking sets, after Set/Delete, nil pointer; graph.Kinds, []graph.ID(nil), *time.Time, empty vs nil slices and maps) "
